@@ -581,6 +581,68 @@ def absent_batched(rep, fnd, pid, tier):
     rep.count("absent_batched_cases", n)
 
 
+def absent_deep(rep, fnd, pid, tier):
+    """Deep pyramids (J = 4, 5) on sizes of every dyadic class (8 mod 16, 16 mod 32, 24 mod 32, multiples of 32 ...), EVERY
+    subset of absent levels (and the lowpass), against the same call with explicit zeros.  The crop decision of a level that
+    is present must not leak into an absent level next to it and vice versa.  Patterns inside the region of finding F6c (an
+    absent level whose input the forward transform had extended: the crop information is gone) are left to the replay layer,
+    which knows the finding's signature."""
+    import itertools
+    dwtlib.f64()
+    rng = np.random.default_rng(33700 + seed())
+    n = 0
+    sizes = [(24, 40, 4), (56, 32, 4), (48, 80, 5), (23, 16, 4)] if tier == "quick" else \
+        [(24, 40, 4), (56, 32, 4), (48, 80, 5), (23, 16, 4), (40, 24, 5), (72, 104, 4), (16, 112, 5), (39, 50, 4)]
+    kinds = ("none", "empty", "placeholder")
+    for k, (H, W, J) in enumerate(sizes):
+        b, q = BIORTS[k % len(BIORTS)], QSHIFTS[k % len(QSHIFTS)]
+        with torch.no_grad():
+            yl, yh = pw.DTCWTForward(biort=b, qshift=q, J=J)(torch.zeros(1, 2, H, W))
+        # which levels >= 2 had their input extended by the forward transform (rows or columns not a multiple of 4)
+        ext = {}
+        r, c = H + H % 2, W + W % 2
+        for j in range(2, J + 1):
+            ext[j] = (r % 4 != 0) or (c % 4 != 0)
+            r, c = (r + (2 if r % 4 else 0)) // 2, (c + (2 if c % 4 else 0)) // 2
+        low = torch.tensor(rng.standard_normal(tuple(yl.shape)))
+        his = [torch.tensor(rng.standard_normal(tuple(h.shape))) for h in yh]
+        inv = pw.DTCWTInverse(biort=b, qshift=q)
+        for mask in itertools.product((False, True), repeat=J + 1):
+            lo_abs, levels = mask[0], [j for j in range(J) if mask[j + 1]]
+            if not lo_abs and not levels:
+                continue
+            if lo_abs and (J - 1) in levels:
+                continue            # nothing left that carries the shape
+            if any(ext.get(j + 2, False) for j in levels):
+                continue            # region of F6c: level j+1 absent while the NEXT coarser level's input (its lowpass) had been extended -
+                                    # the crop after reconstructing that coarser level is decided by the absent level's shape
+            kind = kinds[(n + k) % 3]
+
+            def absent(t):
+                return {"none": None, "empty": torch.tensor([], dtype=t.dtype), "placeholder": t.new_zeros([])}[kind]
+            a_low = absent(low) if lo_abs else low
+            a_his = [absent(h) if j in levels else h for j, h in enumerate(his)]
+            z_low = torch.zeros_like(low) if lo_abs else low
+            z_his = [torch.zeros_like(h) if j in levels else h for j, h in enumerate(his)]
+            cfg = dict(biort=b, qshift=q, H=H, W=W, J=J, lowpass_absent=bool(lo_abs), absent_levels=[j + 1 for j in levels], absent_as=kind,
+                       levels_extended_by_forward=[j for j in ext if ext[j]])
+            rep.validated()
+            rep.nontriv(("absent_deep", H, W, J, mask))
+            n += 1
+            want = inv((z_low, z_his))
+            try:
+                got = inv((a_low, a_his))
+            except Exception as e:   # noqa
+                rep.violation("DTCWTInverse raised %r where zeros of the right shape reconstruct, at %s" % (e, cfg),
+                              {"api": "DTCWTInverse", "check": "absent_deep", "cfg": cfg})
+                continue
+            if got.shape != want.shape or not float((got - want).abs().max()) <= 1e-12 * (float(want.abs().max()) + 1e-300):
+                rep.violation("DTCWTInverse with absent inputs differs from the same call with explicit zeros at %s (shape %s vs %s, max deviation %.3g)"
+                              % (cfg, tuple(got.shape), tuple(want.shape), float((got - want).abs().max()) if got.shape == want.shape else float("nan")),
+                              {"api": "DTCWTInverse", "check": "absent_deep", "cfg": cfg})
+    rep.count("absent_deep_cases", n)
+
+
 # ------------------------------------------------------------------------------------------
 # options (C12)
 # ------------------------------------------------------------------------------------------
